@@ -121,6 +121,8 @@ def run(tier, seed):
              S("Potato", "SandyLoam", seed=seed + 8, regime="arid", irr={"method": 1, "kw": {"SMT": [70] * 4, "WetSurf": 50}}, field={"bunds": True, "z_bund": 0.05}),
              # calendar given in days, converted to thermal time by the model (the conversion must not depend on how the harvest date was given)
              S("Wheat", "SandyLoam", seed=seed + 10, crop_kw={"SwitchGDD": 1}, seasons=2),
+             # mulches on the fallow field only, fallow days simulated: the in-season mulch settings (switched off) must stay without effect there
+             S("Barley", "Loam", seed=seed + 11, regime="warm", off_season=True, lead=40, seasons=2, fallow={"mulches": True, "mulch_pct": 40, "f_mulch": 0.6}),
              # long fallow periods with rain (off-season simulated, start well before planting): the fallow management matters
              S("Wheat", "ClayLoam", seed=seed + 9, regime="wet", off_season=True, lead=45, seasons=2, events=L.storm_events(2001, (1, 20), (90, 60, 120)))]
     if tier == "thorough":
